@@ -88,8 +88,8 @@ def _check_fit(r, fam, X, case, tag):
     cop, exc = _fit(fam, X.copy())
     U, V = X[:, 0], X[:, 1]
     desc = f'{fam}.fit({tag})'
-    invalid = (X.min() < 0) or (X.max() > 1)
-    tref = K.tau_b(U, V)
+    invalid = bool(np.isnan(X).any()) or (X.min() < 0) or (X.max() > 1)       # a missing value is not inside [0,1] either
+    tref = K.tau_b(U, V) if not np.isnan(X).any() else float('nan')
     if invalid or math.isnan(tref):
         why = 'out-of-range' if invalid else 'constant-column'
         r.hit(f'refusal:{why}')
@@ -176,7 +176,8 @@ def _hist_data():
 
 def TINY_EXCESS(n):
     """Entries outside [0,1] by less than any plausible tolerance: the range test is exact, not approximate."""
-    return ((0, 0, -1e-10), (n - 1, 1, float(np.nextafter(1.0, 2.0))), (0, 1, 1 + 5e-8), (n - 1, 0, -5e-8))
+    return ((0, 0, -1e-10), (n - 1, 1, float(np.nextafter(1.0, 2.0))), (0, 1, 1 + 5e-8), (n - 1, 0, -5e-8),
+            (0, 0, float('nan')), (n - 1, 1, float('nan')))
 
 
 def run_case(case):
@@ -190,6 +191,20 @@ def run_case(case):
             for fam in FAMS:
                 _check_fit(r, fam, X, case, f'n={n} pattern#{idx} {mapping}')
                 r.state((n, idx, mapping, fam))
+                if mapping == 'closed' and set(np.unique(X).tolist()) <= {0.0, 1.0}:
+                    # a valid table whose values are all 0 or 1 may be stored with an integer or boolean dtype: same outcome
+                    base_c, base_e = _fit(fam, X.copy())
+                    for dt in (np.int64, np.int8, np.uint8, bool):
+                        c2, e2 = _fit(fam, X.astype(dt))
+                        r.tr()
+                        same = (type(base_e) is type(e2)) if (base_e is not None or e2 is not None) else \
+                            (c2.theta == base_c.theta or (c2.theta != c2.theta and base_c.theta != base_c.theta)) and c2.tau == base_c.tau
+                        if not same:
+                            r.violation(f'C10:{fam}:dtype-dependence', f'{fam}.fit(n={n} pattern#{idx} closed) stored as '
+                                        f'{np.dtype(dt).name}: {"raised " + type(e2).__name__ + ": " + str(e2)[:80] if e2 else (c2.theta, c2.tau)}'
+                                        f', as float64: {"raised " + type(base_e).__name__ if base_e else (base_c.theta, base_c.tau)}',
+                                        case=case, X=X)
+                            break
                 if n <= 3 and mapping == 'open':
                     # every small array with one entry pushed out of [0,1] must be refused
                     for (i, j, bad) in ((0, 0, -0.01), (n - 1, 1, 1.01), (0, 1, 1.7)) + TINY_EXCESS(n):
@@ -219,9 +234,9 @@ def run_case(case):
         for fam in FAMS:
             _check_fit(r, fam, X, case, f'designed n={n} tau~{t}')
             r.state(('designed', t, fam))
-            for bad in (-0.01, 1.01, float(np.nextafter(1.0, 2.0)), 1 + 1e-9, 1 + 5e-8, -1e-10, -5e-8, -5e-324):
+            for bad in (-0.01, 1.01, float(np.nextafter(1.0, 2.0)), 1 + 1e-9, 1 + 5e-8, -1e-10, -5e-8, -5e-324, float('nan')):
                 Y = X.copy()
-                Y[n // 3, 1 if bad > 1 else 0] = bad
+                Y[n // 3, 1 if (bad > 1 or bad != bad) else 0] = bad
                 _check_fit(r, fam, Y, case, f'designed n={n} tau~{t} with one entry {bad}')
                 r.state(('designed-bad', t, fam, bad))
         r.hit('designed')
